@@ -81,6 +81,7 @@ func newAlgoSUT(r *rng, algo, wrap string) *algoSUT {
 		c.Initial = r.between(1, 60)
 		c.Ceil = []int{20, 120, 300, 1000}[r.intn(4)]
 		s.smoothing = smooths[r.intn(len(smooths))]
+		reqSmooth := outOfRangeSmoothing(r, &s.smoothing, 1.0)
 		mult := []int{4, 10, 30}[r.intn(3)] // C07 and C15 are jointly satisfiable only if probing leaves room for an update between probes (multiplier >= 4)
 		c.ProbeMax = -1                     // bound = multiplier x largest estimate seen, computed by the contract
 		c.Inc = mult
@@ -89,7 +90,7 @@ func newAlgoSUT(r *rng, algo, wrap string) *algoSUT {
 		case 0:
 			// "take the default" multipliers (0, -1: the convention of the default constructors) mean 30
 			c.Inc = 30
-			v = limit.NewVegasLimitWithRegistry(c.Name, c.Initial, nil, c.Ceil, s.smoothing, nil, nil, nil, nil, nil, []int{0, -1}[r.intn(2)], nil, s.reg)
+			v = limit.NewVegasLimitWithRegistry(c.Name, c.Initial, nil, c.Ceil, reqSmooth, nil, nil, nil, nil, nil, []int{0, -1}[r.intn(2)], nil, s.reg)
 		case 1:
 			// the default constructors: initial 20 (or as given), maximum 1000, smoothing 1, multiplier 30
 			c.Initial, c.Ceil, c.Inc, s.smoothing = 20, 1000, 30, 1.0
@@ -98,7 +99,7 @@ func newAlgoSUT(r *rng, algo, wrap string) *algoSUT {
 			c.Ceil, c.Inc, s.smoothing = 1000, 30, 1.0
 			v = limit.NewDefaultVegasLimitWithLimit(c.Name, c.Initial, nil, s.reg)
 		default:
-			v = limit.NewVegasLimitWithRegistry(c.Name, c.Initial, nil, c.Ceil, s.smoothing, nil, nil, nil, nil, nil, mult, nil, s.reg)
+			v = limit.NewVegasLimitWithRegistry(c.Name, c.Initial, nil, c.Ceil, reqSmooth, nil, nil, nil, nil, nil, mult, nil, s.reg)
 		}
 		s.vegas, s.inner = v, v
 	case "gradient":
@@ -120,6 +121,7 @@ func newAlgoSUT(r *rng, algo, wrap string) *algoSUT {
 			c.Initial = c.Ceil + r.between(1, 150)
 		}
 		s.smoothing = smooths[r.intn(len(smooths))]
+		reqSmooth := outOfRangeSmoothing(r, &s.smoothing, 0.2)
 		interval := []int{limit.ProbeDisabled, 5, 20, 100, 100}[r.intn(5)]
 		if interval > 0 {
 			c.ProbeMax = 2 * interval
@@ -140,7 +142,7 @@ func newAlgoSUT(r *rng, algo, wrap string) *algoSUT {
 				c.Initial = sq
 			}
 		}
-		g := limit.NewGradientLimitWithRegistry(c.Name, c.Initial, c.Floor, c.Ceil, s.smoothing, qf, tol, interval, nil, s.reg)
+		g := limit.NewGradientLimitWithRegistry(c.Name, c.Initial, c.Floor, c.Ceil, reqSmooth, qf, tol, interval, nil, s.reg)
 		s.grad, s.inner = g, g
 		if c.Queue > c.Floor {
 			c.Floor = c.Queue // the reported estimate never goes below the queue allowance
@@ -154,9 +156,10 @@ func newAlgoSUT(r *rng, algo, wrap string) *algoSUT {
 			c.Initial = c.Ceil + r.between(1, 150) // the constructor does not bound the initial limit: the first updates bring it back
 		}
 		s.smoothing = smooths[r.intn(len(smooths))]
+		reqSmooth := outOfRangeSmoothing(r, &s.smoothing, 0.2)
 		q := c.Queue
 		c.Inc = []int{5, 10, 50, 600}[r.intn(4)] // the long RTT window (600 is the library's default)
-		g, err := limit.NewGradient2Limit(c.Name, c.Initial, c.Ceil, c.Floor, func(int) int { return q }, s.smoothing, c.Inc, nil, s.reg)
+		g, err := limit.NewGradient2Limit(c.Name, c.Initial, c.Ceil, c.Floor, func(int) int { return q }, reqSmooth, c.Inc, nil, s.reg)
 		if err != nil {
 			panic(err)
 		}
@@ -564,6 +567,17 @@ func growBound(c algoCfg, smoothing float64, est int) int {
 		return int(float64(c.Ceil-est)/(smoothing*float64(c.Queue))) + 1500 + 4*c.Inc
 	}
 	return 0
+}
+
+// outOfRangeSmoothing: one configuration in six asks for a smoothing factor outside [0, 1] (negative ones in and below
+// (-1, 0), and above 1), which the constructors replace by their default: it returns what to pass to the constructor and
+// sets *eff to the factor the limit must then work with.
+func outOfRangeSmoothing(r *rng, eff *float64, def float64) float64 {
+	if !r.chance(1, 6) {
+		return *eff
+	}
+	*eff = def
+	return []float64{-0.5, -0.1, -0.75, -1, -7, 1.5}[r.intn(6)]
 }
 
 // TestLimitTwin records, for Vegas / Gradient / Gradient2, pairs of identically prepared instances
